@@ -227,8 +227,10 @@ class YncaApi:
         """
         # Convert to list to avoid issues when deleting while iterating
         for id in list(self._subunits.keys()):
-            subunit = self._subunits.pop(id)
-            subunit.close()
+            # Could have been removed already when close() is called from multiple threads
+            subunit = self._subunits.pop(id, None)
+            if subunit:
+                subunit.close()
         if self._connection:
             self._connection.close()
             self._connection = None
